@@ -167,6 +167,20 @@ def fam_delivery(rng, tier):
             out.append({"tid": "dlv%d" % n, "conns": [{"events": events}], "run": run, "callbacks": cbs, "actions": actions,
                         "send_after_run": n % 4 == 0, "trace": n % 7 == 0, "cb_style": [None, "partial", "object"][n % 3],
                         "tls": bool(variant % 2) if tier == "thorough" else (n % 3 == 0), "horizon": 60000})
+    # messages whose frame arrives slowly: the first bytes (inside the two-byte header, inside the extended length, at the
+    # first payload byte), a pause longer than any read timeout of the run, then the rest - delivered when complete, and
+    # everything after it as well
+    for L in (126, 300, 65535, 65536) if tier == "thorough" else (126, 65536):
+        hl = 4 if L < 65536 else 10
+        for k in sorted({1, 2, 3, hl - 1, hl, hl + 1}):
+            for run in ({"ping_interval": 30, "ping_timeout": 2}, {}, {"ping_interval": 30, "ping_timeout": 2, "dispatcher": "ext", "reconnect": 2}):
+                for op in ("text", "binary"):
+                    if tier == "quick" and (k + L + len(run) + len(op)) % 2:
+                        continue
+                    n += 1
+                    body = ("m" * L) if op == "text" else bytes([k]) * L
+                    events = [(100, ("split", (op, body), k, 3500)), (200, ("text", "after")), (50, ("ping", b"p")), (300, ("close", 1000, b"done"))]
+                    out.append({"tid": "dlv%d" % n, "conns": [{"events": events}], "run": dict(run), "horizon": 60000})
     return out
 
 
@@ -306,6 +320,28 @@ def fam_endings(rng, tier):
         n += 1
         out.append({"tid": "end%d" % n, "conns": [{"events": [], "pong": answer}, {"events": [(5, ("close", 1000, b""))]}],
                     "run": {"ping_interval": 5, "ping_timeout": 2}, "runs": 2, "horizon": 120000})
+    # reconnecting runs with a keepalive that lose one, two, three connections and then end (server close frame, close() from a
+    # callback, from a second thread): nothing of any of the connections - transport, ping thread - is left; then a second run
+    for nloss in (1, 2, 3):
+        for kind in ("eof", "reset", "mixed"):
+            for how in ("srvclose", "callback", "user"):
+                for I, T in ((3, 1), (20, None)):
+                    if tier == "quick" and rng.random() < 0.4:
+                        continue
+                    n += 1
+                    loss = [{"events": [(100, ("text", "a")), (150, ("eof",))], "pong": 0}, {"events": [(120, ("reset",))], "pong": 0}, {"accept": False}]
+                    conns = [dict(loss[0 if kind == "eof" else 1 if kind == "reset" else (i % 3)]) for i in range(nloss)]
+                    last = {"events": [(100, ("text", "last"))] + ([(200, ("close", 1000, b"end"))] if how == "srvclose" else []), "pong": 0}
+                    run = {"ping_interval": I, "reconnect": 1}
+                    if T:
+                        run["ping_timeout"] = T
+                    sc = {"tid": "end%d" % n, "conns": conns + [last, {"events": [(10, ("close", 1000, b""))]}], "run": run, "runs": 2,
+                          "rerun_gap": 100, "horizon": 200000}
+                    if how == "callback":
+                        sc["actions"] = {"message": [None] * sum(1 for c in conns if c.get("events") and c["events"][0][1][0] == "text") + ["close"]}
+                    elif how == "user":
+                        sc["user"] = [(nloss * 1400 + 900, "close")]
+                    out.append(sc)
     # user thread close() at various times
     for t in (0, 5, 10, 15, 25, 1000, 12000):
         for end in (("close", 1000, b"x"), ("eof",), None):
@@ -366,6 +402,28 @@ def fam_reconnect(rng, tier):
             run["dispatcher"] = disp
         out.append({"tid": "rec%d" % n, "conns": [{"accept": False}] * (450 if disp is None else 120) + [{"events": [(100, ("text", "at last")), (100, ("close", 1000, b""))]}],
                     "run": run, "horizon": 2000000, "max_steps": 400000})
+    # the same object run again: a first run ended by the application's own close() (from a second thread, from a callback)
+    # or by a server close frame, then a reconnecting run that loses its connection(s) - every retry one interval after the loss
+    for how in ("user", "callback", "srvclose"):
+        for R in (1, 3):
+            for disp in (None, "ext"):
+                for losses in (("eof",), ("refused", "reset"), ("ptimeout",)):
+                    if tier == "quick" and rng.random() < 0.35:
+                        continue
+                    n += 1
+                    first = {"events": [(100, ("text", "one"))] + ([(200, ("close", 1000, b"bye"))] if how == "srvclose" else [])}
+                    conns = [first] + [dict(outcomes[x]) for x in losses] + [{"events": [(100, ("text", "final")), (100, ("close", 1000, b""))]}]
+                    run = {"reconnect": R}
+                    if disp:
+                        run["dispatcher"] = disp
+                    if "ptimeout" in losses:
+                        run.update({"ping_interval": 5, "ping_timeout": 2})
+                    sc = {"tid": "rec%d" % n, "conns": conns, "run": run, "runs": 2, "rerun_gap": 100, "horizon": 300000}
+                    if how == "user":
+                        sc["user"] = [(700, "close")]
+                    elif how == "callback":
+                        sc["actions"] = {"message": ["close"]}
+                    out.append(sc)
     # a server close frame ends the run whatever its status code (1012 "service restart", 1013 "try again later" included)
     for code in (1001, 1011, 1012, 1013, 3000, 4999):
         for disp in (None, "ext"):
